@@ -269,7 +269,7 @@ theorem C17_open_refines (h : List Ev) :
     (runO Gen.cfg OWorld.init h).w = run World.init h ∧
     ∀ e, (stepO Gen.cfg (runO Gen.cfg OWorld.init h) e).1.w = (step (run World.init h) e).1 ∧
          (stepO Gen.cfg (runO Gen.cfg OWorld.init h) e).2 = (step (run World.init h) e).2 := by
-  have hc : Cfg.plain Gen.cfg := ⟨C17_fapl_shape.2.2.1, C17_fapl_shape.2.1⟩
+  have hc : Cfg.plain Gen.cfg := ⟨C17_fapl_shape.2.2.1, C17_fapl_shape.2.2.2.1, C17_fapl_shape.2.1⟩
   obtain ⟨hw, hp⟩ := runO_plain hc h Plain_init
   refine ⟨hw, fun e => ?_⟩
   obtain ⟨h1, h2, _⟩ := stepO_plain hc hp e
@@ -285,7 +285,7 @@ theorem C17_reopen_not_refused (h : List Ev) (hd : Handle) (ho : (run World.init
     (stepO Gen.cfg (runO Gen.cfg OWorld.init h) fin).2 = none ∧
     reopenO Gen.cfg (runO Gen.cfg (stepO Gen.cfg (runO Gen.cfg OWorld.init h) fin).1 tail) m =
       (none, view (run World.init h)) := by
-  have hc : Cfg.plain Gen.cfg := ⟨C17_fapl_shape.2.2.1, C17_fapl_shape.2.1⟩
+  have hc : Cfg.plain Gen.cfg := ⟨C17_fapl_shape.2.2.1, C17_fapl_shape.2.2.2.1, C17_fapl_shape.2.1⟩
   obtain ⟨hw0, hp0⟩ := runO_plain hc h Plain_init
   obtain ⟨hw1, he1, hp1⟩ := stepO_plain hc hp0 fin
   obtain ⟨hw2, hp2⟩ := runO_plain hc tail hp1
@@ -337,6 +337,7 @@ theorem C17_chain_reopen_open (ss : List Session) (hne : ss ≠ []) (hok : ∀ s
 flushes — successfully — and is killed leaves a file that **no** later `File.open(path, 'r' | 'a')` can open
 (libhdf5: "file is already open for write"), for every session body. This is the edit `C17_fapl_shape` refuses. -/
 theorem C17_locking_fapl_refuses (cfg : Cfg) (hl : locking cfg.low = true) (ha : cfg.createAtArg = true)
+    (hoa : cfg.openAtArg = true)
     (ow : OWorld) (hn : ow.w.handle = none) (body : List Ev) (hb : ∀ e ∈ body, sessionEv e = true)
     (m : Mode) (hm : m ≠ .overwrite) :
     (stepO cfg ow (.open .overwrite)).2 = none ∧
@@ -347,13 +348,14 @@ theorem C17_locking_fapl_refuses (cfg : Cfg) (hl : locking cfg.low = true) (ha :
   have hk := C17_flush_shape.2.2.1
   have hheld1 := run_held (cfg := cfg) hk body hheld0 hb
   have hheld2 := session_held (cfg := cfg) hk hheld1 .flush rfl
-  refine ⟨h0, ?_, held_kill_refused hheld2 m hm⟩
+  refine ⟨h0, ?_, held_kill_refused hoa hheld2 m hm⟩
   obtain ⟨hd, ho, _⟩ := hheld1.handle
   exact runBody_noraise Gen.fileFlushBody ho C17_flush_shape.2.1
 
 /-- … while a regular `close()` (or leaving the `with` block) clears the mark: even under a locking bound the
 closed file reopens and shows the state at the close — the loss is specific to `flush()` + kill, as observed. -/
 theorem C17_locking_close_ok (cfg : Cfg) (hl : locking cfg.low = true) (ha : cfg.createAtArg = true)
+    (hoa : cfg.openAtArg = true)
     (ow : OWorld) (hn : ow.w.handle = none) (body : List Ev) (hb : ∀ e ∈ body, sessionEv e = true)
     (fin : Ev) (hfin : fin = .close ∨ fin = .exit) (m : Mode) (hm : m ≠ .overwrite) :
     ∃ hd, (runO cfg (stepO cfg ow (.open .overwrite)).1 body).w.handle = some hd ∧
@@ -375,7 +377,7 @@ theorem C17_locking_close_ok (cfg : Cfg) (hl : locking cfg.low = true) (ha : cfg
     · exact close_clears hheld1 hwf1 Gen.fileExitBody C17_exit_shape.1 C17_exit_shape.2.2.1 .exit rfl
         (Or.inr rfl)
   obtain ⟨hd, ho, hset, _, hflag, _⟩ := hcl
-  exact ⟨hd, ho, reopen_unmarked hset hflag m hm⟩
+  exact ⟨hd, ho, reopen_unmarked hoa hset hflag m hm⟩
 
 /-- A new file created beside the named path (`h5py.h5f.create` not given the caller's path): the flushed state
 is not at the named path — reopening shows what was there before. This is the other edit `C17_fapl_shape`
@@ -383,10 +385,21 @@ refuses. -/
 theorem C17_detached_loses :
     ∃ (before : OWorld) (hd : Handle) (c : Store),
       before = runO Gen.cfg OWorld.init [.open .overwrite, .write (.put "k" "old"), .close, .kill] ∧
-      (runO ⟨.earliest, false⟩ before [.open .overwrite, .write (.put "k" "new"), .flush]).w.handle = some hd ∧
+      (runO ⟨.earliest, false, true⟩ before [.open .overwrite, .write (.put "k" "new"), .flush]).w.handle = some hd ∧
       hd.cache "k" = some "new" ∧
-      reopenO ⟨.earliest, false⟩
-        (runO ⟨.earliest, false⟩ before [.open .overwrite, .write (.put "k" "new"), .flush]) .readOnly
+      reopenO ⟨.earliest, false, true⟩
+        (runO ⟨.earliest, false, true⟩ before [.open .overwrite, .write (.put "k" "new"), .flush]) .readOnly
+        = (none, some c) ∧ c "k" = some "old" :=
+  ⟨_, _, _, rfl, rfl, by decide, rfl, by decide⟩
+
+/-- … and the same for an existing file opened read-write at another path than the one named. -/
+theorem C17_detached_open_loses :
+    ∃ (before : OWorld) (hd : Handle) (c : Store),
+      before = runO Gen.cfg OWorld.init [.open .overwrite, .write (.put "k" "old"), .close, .kill] ∧
+      (runO ⟨.earliest, true, false⟩ before [.open .readWrite, .write (.put "k" "new"), .flush]).w.handle = some hd ∧
+      hd.cache "k" = some "new" ∧
+      reopenO Gen.cfg
+        (runO ⟨.earliest, true, false⟩ before [.open .readWrite, .write (.put "k" "new"), .flush]) .readOnly
         = (none, some c) ∧ c "k" = some "old" :=
   ⟨_, _, _, rfl, rfl, by decide, rfl, by decide⟩
 
@@ -449,9 +462,9 @@ example : quiet (.writeback ["x"]) = true ∧ quiet .flush = true ∧ quiet (.op
 
 /-- the locking theorem is about real configurations: 1.10, and `latest`, lock; a concrete run is refused -/
 example : locking .v110 = true ∧ locking .latest = true ∧ locking .v18 = false ∧
-    (reopenO ⟨.latest, true⟩ (runO ⟨.latest, true⟩ OWorld.init [.open .readWrite, .write (.put "a" "1"), .flush])
+    (reopenO ⟨.latest, true, true⟩ (runO ⟨.latest, true, true⟩ OWorld.init [.open .readWrite, .write (.put "a" "1"), .flush])
       .readWrite).1 = some .runtimeError ∧
-    (reopenO ⟨.latest, true⟩ (runO ⟨.latest, true⟩ OWorld.init [.open .readWrite, .write (.put "a" "1"), .close])
+    (reopenO ⟨.latest, true, true⟩ (runO ⟨.latest, true, true⟩ OWorld.init [.open .readWrite, .write (.put "a" "1"), .close])
       .readWrite).1 = none := by decide
 
 /-- `C17_reopen_not_refused` on a concrete history; `C17_last_flush_wins` with a write between the flushes -/
